@@ -204,20 +204,21 @@ def Decimal.zero : Decimal := { d := Array.replicate Gen.fpDecimalDigits 0, nd :
 
 def Decimal.digits (a : Decimal) : Bytes := a.d.extract 0 a.nd
 
-/-- digit loop of `decimal.set`; returns `(a, sawdot, sawdigits, i)` or `none` for a second `.` -/
-def setLoop (data : Bytes) : Nat → Nat → Decimal → Bool → Bool → Option (Decimal × Bool × Bool × Nat)
-  | 0, i, a, sawdot, sawdigits => some (a, sawdot, sawdigits, i)
-  | fuel+1, i, a, sawdot, sawdigits =>
+/-- digit loop of `decimal.set`; `dropped` = integer digits that did not fit into `d`;
+    returns `(a, sawdot, sawdigits, dropped, i)` or `none` for a second `.` -/
+def setLoop (data : Bytes) : Nat → Nat → Decimal → Bool → Bool → Nat → Option (Decimal × Bool × Bool × Nat × Nat)
+  | 0, i, a, sawdot, sawdigits, dropped => some (a, sawdot, sawdigits, dropped, i)
+  | fuel+1, i, a, sawdot, sawdigits, dropped =>
     match data[i]? with
-    | none => some (a, sawdot, sawdigits, i)
+    | none => some (a, sawdot, sawdigits, dropped, i)
     | some b =>
       if b == 46 then
-        if sawdot then none else setLoop data fuel (i+1) { a with dp := a.nd } true sawdigits
+        if sawdot then none else setLoop data fuel (i+1) { a with dp := (a.nd + dropped : Nat) } true sawdigits dropped
       else if 48 ≤ b && b ≤ 57 then
-        if b == 48 && a.nd == 0 then setLoop data fuel (i+1) { a with dp := a.dp - 1 } sawdot true
-        else if a.nd < a.d.size then setLoop data fuel (i+1) { a with d := a.d.set! a.nd b, nd := a.nd + 1 } sawdot true
-        else setLoop data fuel (i+1) (if b != 48 then { a with trunc := true } else a) sawdot true
-      else some (a, sawdot, sawdigits, i)
+        if b == 48 && a.nd == 0 then setLoop data fuel (i+1) { a with dp := a.dp - 1 } sawdot true dropped
+        else if a.nd < a.d.size then setLoop data fuel (i+1) { a with d := a.d.set! a.nd b, nd := a.nd + 1 } sawdot true dropped
+        else setLoop data fuel (i+1) (if b != 48 then { a with trunc := true } else a) sawdot true (if !sawdot then dropped + 1 else dropped)
+      else some (a, sawdot, sawdigits, dropped, i)
 
 /-- `decimal.set(data)` on a zero decimal; `none` = `false` -/
 def Decimal.set (data : Bytes) : Option Decimal :=
@@ -225,12 +226,12 @@ def Decimal.set (data : Bytes) : Option Decimal :=
   else
     let neg := data[0]! == 45
     let a : Decimal := { Decimal.zero with neg := neg }
-    match setLoop data data.size (if neg then 1 else 0) a false false with
+    match setLoop data data.size (if neg then 1 else 0) a false false 0 with
     | none => none
-    | some (a, sawdot, sawdigits, i) =>
+    | some (a, sawdot, sawdigits, dropped, i) =>
       if !sawdigits then none
       else
-        let a := if !sawdot then { a with dp := a.nd } else a
+        let a := if !sawdot then { a with dp := (a.nd + dropped : Nat) } else a
         match data[i]? with
         | some c =>
           if c == 101 || c == 69 then
